@@ -339,6 +339,57 @@ func c08Seeds(cfg *rtr.Cfg, key []byte, now uint32) []c08Seed {
 	return seeds
 }
 
+// ---- phase 0: authentic hop fields that name interfaces the router does not have ----
+//
+// A hop field with a VALID MAC can still name an interface this router cannot use: interfaces are removed from the
+// topology while their hop fields live on, the key is shared by all routers of the AS (sibling-owned interfaces), and
+// the MAC covers whatever numbers the beaconing put there. Random or mutated bytes never get past the MAC check, so
+// these packets are generated: every hop the router validates gets its travel-direction ingress and/or egress
+// rewritten over the interface alphabet with a recomputed MAC, crossed with the router-alert flags of that hop.
+
+// c08IfAlphabet: 0 (none), unknown, the largest value, a sibling-owned, another sibling's, own interfaces of several link types.
+var c08IfAlphabet = []uint16{0, 999, 0xffff, 13, 23, 15, 1, 3, 5}
+
+// c08Rehop rewrites validated hop vi of the case's packet (travel-direction interfaces tin/tout; keep=true leaves one as
+// it is), sets the alert flags, recomputes the MAC and the in-flight SegID for an external / internal arrival.
+func c08Rehop(c *rtr.Case, vi int, setIn, setEg bool, tin, tout uint16, inAlert, egAlert bool, external bool, key []byte) rtr.Pkt {
+	p := c.Pkt.Clone()
+	v := c.V[vi]
+	hp := p.HopRef(v.Hop)
+	seg := &p.Segs[v.Inf]
+	if seg.ConsDir {
+		if setIn {
+			hp.In = tin
+		}
+		if setEg {
+			hp.Eg = tout
+		}
+	} else {
+		if setIn {
+			hp.Eg = tin
+		}
+		if setEg {
+			hp.In = tout
+		}
+	}
+	hp.InAlert, hp.EgAlert = inAlert, egAlert
+	full := rtr.FullHopMAC(key, v.Sigma, v.TS, hp.Exp, hp.In, hp.Eg)
+	copy(hp.Mac[:], full[:6])
+	h := int(c.Pkt.CurrHF)
+	peerHop := c.Shape.Peering && (h == c.Shape.Lens[0]-1 || h == c.Shape.Lens[0])
+	// in flight: against construction direction the previous AS's egress router left SegID = sigma XOR mac[0:2] of this hop
+	// when the packet enters from outside; inside the AS (from a sibling / a host) it is sigma already
+	for i, vv := range c.V {
+		hv := p.HopRef(vv.Hop)
+		m := rtr.FullHopMAC(key, vv.Sigma, vv.TS, hv.Exp, hv.In, hv.Eg)
+		p.Segs[vv.Inf].SegID = vv.Sigma
+		if i == 0 && external && !p.Segs[vv.Inf].ConsDir && !peerHop {
+			p.Segs[vv.Inf].SegID = vv.Sigma ^ binary.BigEndian.Uint16(m[:2])
+		}
+	}
+	return p
+}
+
 // ---- STUN ----
 
 func c08StunRequest(tx [12]byte, extra []byte) []byte {
@@ -765,6 +816,7 @@ func TestC08(t *testing.T) {
 		"x {0,1,0x7f,0x80,0xff, 8 bit flips}; truncation to every length; HdrLen all 256 (+- matching PayloadLen); PayloadLen " +
 		"{0,1,len-1,len+1,0xffff}; DT/DL/ST/SL all 256; extension NextHdr/ExtLen/option type/length all 256; PathType x NextHdr all 65536; " +
 		"extension option layouts: every TLV tiling of a 2- and a 6-byte option area over 4 option types incl. every way to end inside an option (type byte, length byte, overrunning length), as HBH, as E2E and in HBH+E2E on every slow-path seed (traceroute+router alert, expired) and a quarter of the others, auth off and on, 2-byte area also with all 65536 values; " +
+		"generated (not mutated) packets: every validated hop of every rtr.CasesP case re-MACed with its travel ingress and/or egress over {0, unknown, 0xffff, sibling-owned, own} x 4 router-alert flag combinations x {SCION, EPIC} x {UDP, SCMP traceroute request} x ingress kinds, one-hop paths likewise; " +
 		"path meta word (structured subset of 4x64x7^3x2 words on 4 seeds and all ingress kinds; thorough adds all 2^26 words on each of the 4 seeds); pairs of structural single-byte mutations (bound 2); STUN: every byte x " +
 		"same values, every truncation, first attribute type/length all 65536 values, extra attributes. Structural families on all three ingress kinds " +
 		"(external, sibling, internal), byte sweep on the seed's own ingress; SCMP authentication off/on. Every input is distinct by construction"
@@ -815,6 +867,116 @@ func TestC08(t *testing.T) {
 				return true
 			}
 			return false
+		}
+		// ---- phase 0: validly MACed hop fields naming unknown / zero / sibling-owned / other interfaces x router alert ----
+		{
+			fresh := rtr.CasesP(&cfg0, rtr.KeyA, rtr.Params{TS: now - 100, Exp: 63})
+			epicTS := uint32((100*time.Second)/(21*time.Microsecond)) - 1
+			var n0 atomic.Int64
+			mc.ParallelFor(len(fresh), func(ci int) {
+				if stop() {
+					return
+				}
+				c := &fresh[ci]
+				seed := &c08Seed{name: c.Name + "/ifalert", in: c.In}
+				seed.raw, seed.lay = c.Pkt.Serialize()
+				ins := []rtr.Ingress{c.In}
+				if mc.Thorough() || ci%2 == 0 {
+					ins = append(ins, c08Alt(c.In)...)
+				}
+				for _, auth := range []bool{false, true} {
+					if !mc.Thorough() && auth != (ci%2 == 1) {
+						continue
+					}
+					w := newWorker(auth)
+					for vi := range c.V {
+						type rw struct {
+							setIn, setEg bool
+							tin, tout    uint16
+						}
+						rws := []rw{{}} // the case's own interfaces (alert flags only)
+						for _, x := range c08IfAlphabet {
+							rws = append(rws, rw{setIn: true, tin: x}, rw{setEg: true, tout: x}, rw{setIn: true, setEg: true, tin: x, tout: x})
+						}
+						rws = append(rws, rw{true, true, 999, 0}, rw{true, true, 0, 999}, rw{true, true, 13, 999}, rw{true, true, 999, 13})
+						for _, m := range rws {
+							for al := 0; al < 4; al++ {
+								for pt := 0; pt < 2; pt++ {
+									for l4 := 0; l4 < 2; l4++ {
+										for _, in := range ins {
+											p := c08Rehop(c, vi, m.setIn, m.setEg, m.tin, m.tout, al&1 != 0, al&2 != 0, in.Kind == 1, rtr.KeyA)
+											if l4 == 1 {
+												body := make([]byte, 20)
+												binary.BigEndian.PutUint16(body, 0x1234)
+												p.SetSCMP(130, 0, body) // traceroute request: what a router alert is for
+											}
+											if pt == 1 {
+												cc := *c
+												cc.Pkt = p
+												p = cc.WithEPIC(rtr.KeyA, epicTS)
+											}
+											raw, _ := p.Serialize()
+											code := al | pt<<2 | l4<<3
+											if !m.setIn && !m.setEg {
+												w.one(seed, c08Mut("validated hop %d: own interfaces, alert/epic/l4 code %d", vi, code), raw, in)
+											} else {
+												tin, tout := -1, -1
+												if m.setIn {
+													tin = int(m.tin)
+												}
+												if m.setEg {
+													tout = int(m.tout)
+												}
+												w.one(seed, c08Mut("validated hop %d re-MACed with travel ingress %d egress %d (-1: unchanged), alert/epic/l4 code %d", vi, tin, tout, code), raw, in)
+											}
+											n0.Add(1)
+										}
+									}
+								}
+							}
+						}
+					}
+					done(w)
+				}
+			})
+			// one-hop paths: first router (hop MACed by this AS, egress over the alphabet), second router (arrival on every
+			// own interface, the neighbour's hop naming any egress), all alert flag combinations
+			w := newWorker(false)
+			seed := &c08Seed{name: "ohp/ifalert"}
+			for _, x := range append([]uint16{4, 6, 2}, c08IfAlphabet...) {
+				for al := 0; al < 4; al++ {
+					for _, first := range []bool{true, false} {
+						p := rtr.Pkt{PathType: rtr.PathOneHop, FlowID: 0x12345, Src: rtr.V4("10.0.0.50"), Dst: rtr.SVC(uint16(addr.SvcCS))}
+						sg := rtr.Seg{ConsDir: true, SegID: 0x7777, TS: now - 10}
+						h := rtr.Hop{Eg: x, Exp: 63, InAlert: al&1 != 0, EgAlert: al&2 != 0}
+						var ins []rtr.Ingress
+						if first {
+							p.SrcIA, p.DstIA = uint64(cfg0.IA), uint64(rtr.NbrIA(3))
+							m := rtr.FullHopMAC(rtr.KeyA, sg.SegID, sg.TS, 63, 0, x)
+							copy(h.Mac[:], m[:6])
+							ins = []rtr.Ingress{rtr.FromHost, rtr.FromSibling(13), rtr.FromExt(3)}
+						} else {
+							p.SrcIA, p.DstIA = uint64(rtr.NbrIA(3)), uint64(cfg0.IA)
+							h.Mac = [6]byte{1, 2, 3, 4, 5, 6}
+							ins = []rtr.Ingress{rtr.FromExt(3), rtr.FromExt(1), rtr.FromExt(5), rtr.FromHost, rtr.FromSibling(13)}
+						}
+						sg.Hops = []rtr.Hop{h}
+						p.Segs = []rtr.Seg{sg}
+						p.SetUDP(30041, 30252, []byte("beacon"))
+						raw, _ := p.Serialize()
+						for _, in := range ins {
+							f := 0
+							if first {
+								f = 1
+							}
+							w.one(seed, c08Mut("one-hop first-router=%d hop egress %d alert flags %d", f, int(x), al), raw, in)
+							n0.Add(1)
+						}
+					}
+				}
+			}
+			done(w)
+			r.Extra["phase0_valid_mac_odd_interface_x_alert_inputs"] = n0.Load()
 		}
 		// ---- phase 1: single mutations on every seed ----
 		mc.ParallelFor(len(seeds), func(si int) {
